@@ -408,3 +408,239 @@ def sx_of_library(tree):
     except (KeyError, IndexError, TypeError):
         return None
     return None
+
+
+# ---- variable declaration blocks (Model/DeclParser.v) ----
+ELEM_TYPES = ["BOOL", "SINT", "INT", "DINT", "LINT", "USINT", "UINT", "UDINT", "ULINT", "REAL", "LREAL", "TIME", "DATE", "TIME_OF_DAY", "TOD",
+              "DATE_AND_TIME", "DT", "BYTE", "WORD", "DWORD", "LWORD"]
+CANON = {"TOD": "time_of_day", "DT": "date_and_time"}
+
+
+class D_:
+    """blocks of variable declarations of a function block: (sexp of the variables, sexp of the edge inputs, lexemes)"""
+
+    def __init__(self, rng):
+        self.rng = rng
+
+    def name(self, p="d"):
+        return "%s%d" % (p, self.rng.randrange(60))
+
+    def const(self):
+        r = self.rng.random()
+        if r < 0.5:
+            d = self.rng.choice(["0", "1", "17", "1_000", "007"])
+            v = str(int(d.replace("_", "")))
+            k = self.rng.random()
+            if k < 0.15:
+                return "i:-" + v, [sym("-"), G, lit(d)]
+            if k < 0.25:
+                return "i:" + v, [sym("+"), G, lit(d)]
+            return "i:" + v, [lit(d)]
+        if r < 0.8:
+            b = self.rng.choice(["TRUE", "FALSE"])
+            if self.rng.random() < 0.3:
+                return "b:" + b.lower(), [kw("BOOL"), G, sym("#"), G, kw(b)]
+            return "b:" + b.lower(), [kw(b)]
+        s = self.rng.choice(["", "a", "x y"])
+        return "s:" + "".join("%x." % ord(c) for c in s), [lit("'" + s + "'")]
+
+    def typ(self):
+        """(canonical lower-case name, lexemes, is elementary)"""
+        if self.rng.random() < 0.6:
+            t = self.rng.choice(ELEM_TYPES)
+            return CANON.get(t, t.lower()), [kw(t)], True
+        n = self.name("T")
+        return n.lower(), [ident(n)], False
+
+    def names(self):
+        ns = [self.name() for _ in range(self.rng.choice([1, 1, 1, 2, 3]))]
+        lx = []
+        for i, n in enumerate(ns):
+            if i:
+                lx.append(sym(","))
+            lx.append(ident(n))
+        return ns, lx
+
+    def init_decl(self, cls, q):
+        """names ':' spec [':=' value]  as var_init_decl reads it"""
+        ns, lx = self.names()
+        ty, tl, elem = self.typ()
+        lx += [sym(":")] + tl
+        r = self.rng.random()
+        if r < 0.35:
+            c, cl = self.const()
+            lx += [sym(":=")] + cl
+            init = "(simple %s %s)" % (ty, c)
+        elif r < 0.5 and not elem:
+            v = self.name("val")
+            lx += [sym(":="), ident(v)]
+            init = "(enumtype %s %s)" % (ty, v.lower())
+        elif elem:
+            init = "(simple %s -)" % ty
+        else:
+            init = "(late %s)" % ty
+        return ["(var %s %s %s %s)" % (n.lower(), cls, q, init) for n in ns], [], lx
+
+    def block(self):
+        r = self.rng.random()
+        vs, es, lx = [], [], []
+        if r < 0.25:
+            q = self.rng.choice(["unspec", "unspec", "retain", "nonretain"])
+            lx = [kw("VAR_INPUT")] + ([kw("RETAIN")] if q == "retain" else [kw("NON_RETAIN")] if q == "nonretain" else [])
+            for _ in range(self.rng.choice([0, 1, 2, 3])):
+                if self.rng.random() < 0.3:
+                    ns, nl = self.names()
+                    rising = self.rng.random() < 0.5
+                    lx += nl + [sym(":"), kw("BOOL"), kw("R_EDGE" if rising else "F_EDGE"), sym(";")]
+                    es += ["(edge %s %s %s)" % (n.lower(), "r" if rising else "f", q) for n in ns]
+                else:
+                    v, _, l = self.init_decl("input", q)
+                    vs += v
+                    lx += l + [sym(";")]
+        elif r < 0.4:
+            q = self.rng.choice(["unspec", "retain", "nonretain"])
+            lx = [kw("VAR_OUTPUT")] + ([kw("RETAIN")] if q == "retain" else [kw("NON_RETAIN")] if q == "nonretain" else [])
+            for _ in range(self.rng.choice([0, 1, 2])):
+                v, _, l = self.init_decl("output", q)
+                vs += v
+                lx += l + [sym(";")]
+        elif r < 0.5:
+            lx = [kw("VAR_IN_OUT")]
+            for _ in range(self.rng.choice([0, 1, 2])):
+                ns, nl = self.names()
+                ty, tl, _ = self.typ()
+                lx += nl + [sym(":")] + tl + [sym(";")]
+                vs += ["(var %s inout unspec (late %s))" % (n.lower(), ty) for n in ns]
+        elif r < 0.6:
+            q = self.rng.choice(["unspec", "const"])
+            lx = [kw("VAR_EXTERNAL")] + ([kw("CONSTANT")] if q == "const" else [])
+            for _ in range(self.rng.choice([0, 1, 2])):
+                n = self.name()
+                ty, tl, _ = self.typ()
+                lx += [ident(n), sym(":")] + tl + [sym(";")]
+                vs.append("(var %s external %s (simple %s -))" % (n.lower(), q, ty))
+        else:
+            q = self.rng.choice(["unspec", "unspec", "const", "retain", "nonretain"])
+            lx = [kw("VAR")] + ({"const": [kw("CONSTANT")], "retain": [kw("RETAIN")], "nonretain": [kw("NON_RETAIN")]}.get(q, []))
+            for _ in range(self.rng.choice([0, 1, 2, 3])):
+                v, _, l = self.init_decl("var", q)
+                vs += v
+                lx += l + [sym(";")]
+        if lx[-1] != sym(";"):
+            lx.append(sym(";"))              # an empty block needs a ';'
+        lx.append(kw("END_VAR"))
+        return vs, es, lx
+
+    def blocks(self):
+        vs, es, lx = [], [], []
+        for _ in range(self.rng.choice([0, 1, 1, 2, 3])):
+            v, e, l = self.block()
+            vs += v
+            es += e
+            lx += l
+        return vs, es, lx
+
+
+def fbd_body(rng, depth=1):
+    """(sexp of variables, sexp of edges, sexp of statements, lexemes) of a function block with declaration blocks"""
+    d = D_(rng)
+    vs, es, dl = d.blocks()
+    g = G_(rng, depth=depth)
+    ss, sl = g.stmts(0, 0)
+    lx = [kw("FUNCTION_BLOCK"), ident("fbm")] + dl + sl + [kw("END_FUNCTION_BLOCK")]
+    return "(%s)" % " ".join(vs), "(%s)" % " ".join(es), "(%s)" % " ".join(ss), lx
+
+
+def sx_const(c):
+    """a ConstantKind of the tree in the leaf notation, or None"""
+    if isinstance(c, tuple) and c[0] == "IntegerLiteral" and isinstance(c[1], dict):
+        if c[1].get("data_type") is not None:
+            return None
+        return c[1]["value"]
+    if isinstance(c, tuple) and c[0] == "IntegerLiteral" and isinstance(c[1], list) and c[1] and isinstance(c[1][0], tuple):
+        return sx_const(c[1][0])
+    if isinstance(c, tuple) and c[0] == "Boolean":
+        try:
+            return "b:" + c[1][0][1]["value"]
+        except (KeyError, IndexError, TypeError):
+            return None
+    if isinstance(c, tuple) and c[0] == "CharacterString":
+        try:
+            chars = c[1][0][1]["value"]
+            return "s:" + "".join("%x." % ord(x[2:]) for x in chars)
+        except (KeyError, IndexError, TypeError):
+            return None
+    return None
+
+
+def _tyname(t):
+    if isinstance(t, tuple) and isinstance(t[1], dict) and "name" in t[1]:
+        return _name(t[1]["name"]).lower()
+    return None
+
+
+_QUAL = {"unspecified": "unspec", "constant": "const", "retain": "retain", "nonretain": "nonretain"}
+
+
+def sx_vardecl(v):
+    if not (isinstance(v, tuple) and v[0] == "VarDecl"):
+        return None
+    b = v[1]
+    ident_ = b["identifier"]
+    if not (isinstance(ident_, tuple) and ident_[0] == "Symbol"):
+        return None
+    name = _name(ident_[1][0]).lower()
+    cls = {"input": "input", "output": "output", "inout": "inout", "external": "external", "var": "var"}.get(str(b["var_type"]).lower())
+    q = _QUAL.get(str(b["qualifier"]).lower())
+    i = b["initializer"]
+    init = None
+    if isinstance(i, tuple) and i[0] == "Simple":
+        x = i[1] if isinstance(i[1], dict) else i[1][0][1]
+        ty = _tyname(x["type_name"])
+        iv = x["initial_value"]
+        c = "-" if iv is None else sx_const(iv[1][0] if isinstance(iv, tuple) and iv[0] == "Some" else iv)
+        if ty is not None and c is not None:
+            init = "(simple %s %s)" % (ty, c)
+    elif isinstance(i, tuple) and i[0] == "EnumeratedType":
+        x = i[1] if isinstance(i[1], dict) else i[1][0][1]
+        ty = _tyname(x["type_name"])
+        iv = x["initial_value"]
+        if iv is not None:
+            ev = iv[1][0] if isinstance(iv, tuple) and iv[0] == "Some" else iv
+            evb = ev[1] if isinstance(ev, tuple) else None
+            if isinstance(evb, dict) and evb.get("type_name") is None and ty is not None:
+                init = "(enumtype %s %s)" % (ty, _name(evb["value"]).lower())
+    elif isinstance(i, tuple) and i[0] == "LateResolvedType":
+        ty = _tyname(i[1][0]) if isinstance(i[1], list) else _tyname(i[1])
+        if ty is not None:
+            init = "(late %s)" % ty
+    if None in (cls, q, init):
+        return None
+    return "(var %s %s %s %s)" % (name, cls, q, init)
+
+
+def sx_fbd_of_library(tree):
+    """(variables, edges, statements) of the single function block of a parsed library, or None outside the notation"""
+    try:
+        el = tree[1]["elements"]
+        if len(el) != 1 or el[0][0] != "FunctionBlockDeclaration":
+            return None
+        fb = el[0][1]
+        vs = [sx_vardecl(v) for v in fb["variables"]]
+        es = []
+        for e in fb["edge_variables"]:
+            b = e[1]
+            es.append("(edge %s %s %s)" % (_name(b["identifier"]).lower(), {"rising": "r", "falling": "f"}[str(b["direction"]).lower()],
+                                           _QUAL[str(b["qualifier"]).lower()]))
+        body = fb["body"]
+        if body == "empty" or (isinstance(body, tuple) and body[0] == "Empty"):
+            st = "()"
+        elif isinstance(body, tuple) and body[0] == "Statements":
+            st = sx_list(body[1]["body"])
+        else:
+            st = None
+        if st is None or any(v is None for v in vs):
+            return None
+        return "(%s)" % " ".join(vs), "(%s)" % " ".join(es), st
+    except (KeyError, IndexError, TypeError):
+        return None
